@@ -2,6 +2,7 @@
 #![allow(clippy::all)]
 #![allow(dead_code)]
 
+mod clim;
 mod hist;
 mod par;
 mod props;
